@@ -229,6 +229,10 @@ func AFMRelayout(t *sim.Tape, m *afm.Metrics) []byte {
 	sp := func() string { return []string{" ", "  ", "\t", " \t "}[t.Choose(4)] }
 	fmt.Fprintf(&sb, "StartFontMetrics%s4.1%s", sp(), nl)
 	fmt.Fprintf(&sb, "Comment generated%s", nl)
+	if t.Choose(25) == 0 {
+		// a line longer than a line scanner's default limit (64 KiB)
+		fmt.Fprintf(&sb, "Comment %s%s", strings.Repeat("long ", 13200+t.Choose(200)), nl)
+	}
 	hdr := []string{
 		fmt.Sprintf("FontName%s%s", sp(), m.FontName),
 		fmt.Sprintf("FullName%s%s", sp(), m.FullName),
